@@ -143,6 +143,9 @@ def main(run, tier):
     verify_functions(run, cs, {}, {}, tier=tier)
     from . import parsefwd
     parsefwd.add(run, tier)
+    # the scanning loops of Lexer._token terminate (variants len - pos / len - lexpos), relative to ply consuming >= 1 character per token
+    import contracts.token as ctok
+    verify_functions(run, ctok.build(importlib.import_module('calmjs.parse.lexers.es5')), {}, {}, tier=tier)
     run.floor = 8
     # ---- bounded
     allin = list(inputs(tier, run.seed, corpus))
